@@ -211,6 +211,34 @@ class Shapes:
         return False
 
     def _droppers(self):
+        self.generic = {}  # function name -> index of the predicate parameter (skips elements for which it is true)
+        for fi in self.funcs:
+            if fi.module.name == "vsg.token_map" or not self._returns_list(fi):
+                continue
+            f0 = None
+            for n in walk_function(fi.node):
+                if isinstance(n, ast.Continue):
+                    elems = self._elem_texts(fi, n)
+                    if f0 is None:
+                        f0 = Facts(fi.node)
+                    if self._appended_before(n, elems):
+                        continue
+                    for t, pol in f0.conds_at(n):
+                        for pi, pn in enumerate(fi.params):
+                            if pol is True and any(t.replace(" ", "") == "%s(%s)" % (pn, e.replace(" ", "")) for e in elems):
+                                self.generic[fi.name] = pi
+        for fi in self.funcs:
+            if fi.module.name == "vsg.token_map":
+                continue
+            body = [st for st in fi.node.body if not (isinstance(st, ast.Expr) and isinstance(st.value, ast.Constant))]
+            if len(body) == 1 and isinstance(body[0], ast.Return) and isinstance(body[0].value, ast.Call):
+                c = body[0].value
+                cn = _callee_name(c)
+                if cn in self.generic and self.generic[cn] < len(c.args) and isinstance(c.args[self.generic[cn]], (ast.Name, ast.Attribute)):
+                    pred = norm(c.args[self.generic[cn]]).split(".")[-1]
+                    for kind in ("comment", "cr"):
+                        if pred in self.pred[kind]:
+                            self.droppers[kind].setdefault(fi.name, (fi, body[0], "%s(%s)" % (cn, pred)))
         for fi in self.funcs:
             if fi.module.name == "vsg.token_map" or not self._returns_list(fi):
                 continue
@@ -742,6 +770,10 @@ def run(ctx):
                 cn = _callee_name(n)
                 if cn in sh.pred["comment"] or cn == "is_token_at_index_whitespace_or_comment":
                     return True
+                # a predicate handed to a generic trimming helper
+                for a in n.args:
+                    if isinstance(a, (ast.Name, ast.Attribute)) and norm(a).split(".")[-1] in sh.pred["comment"]:
+                        return True
         return False
 
     for nm in _OC:
